@@ -455,11 +455,17 @@ func (s *Solver) CrossCheck(assumps []*term.T, want Result) (agree bool, detail 
 			lits = append(lits, a)
 		}
 	}
-	for _, p := range s.procs[:2] {
-		r, _ := p.check(lits, 2*s.TimeoutMs)
-		if r != Unknown && r != want {
-			return false, fmt.Sprintf("%s says %s, expected %s", p.kind, r, want)
-		}
+	// Only the second solver is asked (the first one produced the answer). Anything but a
+	// definite opposite answer counts as "not contradicted"; after an indefinite answer the
+	// process is restarted so that no late output can be mistaken for a later reply.
+	p := s.procs[1]
+	r, bad := p.check(lits, 2*s.TimeoutMs)
+	if r == Unknown || bad {
+		p.kill()
+		return true, ""
+	}
+	if r != want {
+		return false, fmt.Sprintf("%s says %s, expected %s", p.kind, r, want)
 	}
 	return true, ""
 }
